@@ -252,7 +252,7 @@ ctor = dict(
     funcs=[dict(src=dict(header=H, cls='BoundedSPSCQueueImpl', name='BoundedSPSCQueueImpl', part='ctor'), struct='BQ',
                 src_params=['capacity', 'huge_pages_policy', 'reader_store_percent'],
                 cfun='BQ_ctor', sig='void BQ_ctor(BQ* self, integer_type capacity, HugePagesPolicy huge_pages_policy, integer_type reader_store_percent)',
-                cls_c='BQ', siblings=[], exceptions=True,
+                cls_c='BQ', siblings=[], exceptions=True, auto_helpers=dict(typemap={'integer_type': 'integer_type'}),
                 contract=r"""
 __CPROVER_requires(__CPROVER_is_fresh(self, sizeof(*self)) && g_exc == EXC_NONE && capacity <= (((size_t)1) << 39))
 __CPROVER_assigns(__CPROVER_object_whole(self), g_exc)
